@@ -1,3 +1,269 @@
-/- Property theorems for C12 (stub: not built yet). -/
+/-
+C12  Applying an estimator is pure, reproducible and independent of scheduling.
+
+Property text: "predict, predict_proba, transform and inverse_transform never modify the caller's
+data and never change the estimator: repeating the call, or calling other apply-type methods in
+between, returns the same result.  Fitting never modifies the caller's data either, and two
+estimators with equal parameters (including random_state) fitted on equal data return equal results
+whatever n_jobs is, as does a pickled and restored copy of a fitted estimator."
+
+What is PROVED here (for the models; the tie to /repo is the correspondence of harness/corr/C12.py):
+  * forecaster state machine (Model/Forecaster.lean, ANY core, both horizon mixins): `predict`
+    changes nothing a later apply-type call can depend on except that it may store the horizon it
+    was given; a `predict` with given arguments returns the same result after ANY interleaving of
+    other `predict` calls; `update_predict` has the net effect "windows merged, cutoff restored";
+    equal parameters + equal data + any two apply histories ⇒ equal results;
+  * any estimator seen as a `Machine` (state, observation, apply): the ONE-STEP condition
+    `WellBehaved` (writes to `self` inside an apply-type method are invisible to later calls) implies
+    the statement for every history; the mutation "cache the result on self" is shown to break it;
+  * a transformer machine (fit / transform / inverse_transform / predict / predict_proba as functions
+    of the fitted state) with the same theorems;
+  * `Parallel`: results placed by submission index do not depend on the completion order, for every
+    permutation; collecting in completion order does.
+What the functional models CANNOT exhibit and is therefore only OBSERVED on the real code and
+compared with the model's prediction "nothing changes" (partial by nature): in-place mutation of the
+caller's objects, thread interleavings, pickling.  The three places where /repo's code is known to
+write into the caller's object are modelled as `Effect`s (`P12.effectOf`), the full-strength
+statement `args_preserved` is FALSE for them (`hampel_mutates_caller_witness`) and is proved as
+`args_preserved_partial` for every other site.
+Only theorems + non-vacuity examples here.
+-/
+import SkVerif.Lemmas.C12
 namespace SkVerif.C12
+open SkVerif SkVerif.Fc SkVerif.P12 SkVerif.Par
+
+-- =============================================================================================
+-- forecaster state machine
+
+/-- `predict(fh)` (any core, either mixin, fitted or not, valid horizon or not) leaves everything a
+later apply-type call can depend on unchanged; the only thing it may do is store the horizon it was
+given. -/
+theorem apply_preserves_observation (core : Core) (mode : FhMode) (s : FState) (a : Option FhArg) :
+    observe (predict core mode s a).1 = observe s ∧
+    ((predict core mode s a).1.fh = s.fh ∨
+      ∃ f, fhObjOf a = .ok (some f) ∧ (predict core mode s a).1.fh = some f) := by
+  obtain ⟨fh', h, hor⟩ := L12.predict_fst core mode s a
+  refine ⟨L12.predict_observe core mode s a, ?_⟩
+  rw [h]
+  exact hor
+
+/-- … and the stored horizon does not influence a `predict` that is given its horizon: the result is
+a function of the observation and the arguments. -/
+theorem apply_result_function_of_observation (core : Core) (s s' : FState) (a : FhArg)
+    (h : observe s = observe s') :
+    (predict core .optional s (some a)).2 = (predict core .optional s' (some a)).2 :=
+  L12.predict_snd_congr core s s' a h
+
+/-- with the required-horizon mixin, and for a call without arguments, `predict` changes nothing at all -/
+theorem apply_changes_nothing_required_or_default (core : Core) (mode : FhMode) (s : FState) (a : Option FhArg)
+    (h : mode = .required ∨ a = none) : (predict core mode s a).1 = s := by
+  rcases h with rfl | rfl
+  · exact L12.predict_required_fst core s a
+  · exact L12.predict_none_fst core mode s
+
+/-- Repeating `predict` with the same arguments - after ANY interleaving of other `predict` calls
+(with or without horizons, valid or raising) - returns the same result.  Holds for every call that
+states its horizon, and for every call at all under the required-horizon mixin.
+(`predict()` WITHOUT a horizon under the optional mixin means "the horizon given last", by design of
+`_OptionalForecastingHorizonMixin._set_fh`; its effective argument is that horizon - see
+`default_horizon_is_last_given`.) -/
+theorem apply_idempotent_under_interleaving (core : Core) (mode : FhMode) (s : FState) (a : Option FhArg)
+    (others : List (Option FhArg)) (h : mode = .required ∨ a.isSome = true) :
+    (predict core mode (predicts core mode s others).1 a).2 = (predict core mode s a).2 := by
+  rcases h with rfl | h
+  · rw [L12.predicts_required_fst]
+  · cases a with
+    | none => simp at h
+    | some x =>
+      cases mode with
+      | required => rw [L12.predicts_required_fst]
+      | optional => exact L12.predict_snd_congr core _ _ x (L12.predicts_observe core .optional s others)
+
+/-- the whole result sequence of an interleaving equals the results of the calls made in isolation -/
+theorem interleaved_results_eq_isolated (core : Core) (s : FState) (as : List FhArg) :
+    (predicts core .optional s (as.map some)).2 = as.map (fun a => (predict core .optional s (some a)).2) := by
+  rw [L12.predicts_eq_runCalls]
+  have := (L12.runCalls_spec (fcMachine core) (L12.fcMachine_wellBehaved core) s (as.map (fun a => ((), a)))).1
+  rw [this, List.map_map]
+  rfl
+
+/-- the effective argument of `predict()`: after a successful `predict(fh)` a call without
+arguments returns what `predict(fh)` returned (the state was not changed in between) -/
+theorem default_horizon_is_last_given (core : Core) (s : FState) (a : FhArg) (f : FH.FH)
+    (hfit : s.fitted = true) (hok : checkFhArg a = .ok f) :
+    (predict core .optional (predict core .optional s (some a)).1 none).2 =
+      (predict core .optional s (some a)).2 := by
+  obtain ⟨fitted, y0, cutoff, fh0, wlen⟩ := s
+  simp only at hfit
+  subst hfit
+  simp only [predict, fhObjOf, hok, Except.map, setFh, Bool.not_true, Bool.false_eq_true, ↓reduceIte]
+  rw [L12.predictStored_fst]
+  simp
+
+/-- `update_predict(y, cv, update_params)`: (1) whatever happens, the forecaster's cutoff is where it
+was; (2) when forecasts come back (update_params=False) the forecaster is EXACTLY as before except
+that the training windows fed were merged into the remembered series (later values win): fitted flag,
+stored horizon, fitted window length and cutoff are untouched. -/
+theorem update_predict_net_effect (core : Core) (mode : FhMode) (s : FState) (y : Series) (cv : Option CvSpec) :
+    (∀ up, (updatePredict core mode s y cv up).1.cutoff = s.cutoff) ∧
+    (s.fitted = true → (∀ e, (updatePredict core mode s y cv false).2 ≠ .err e) →
+      (updatePredict core mode s y cv false).1 =
+        { s with y := (upWindows s y cv).foldl (fun acc w => Series.combineFirst (Series.iloc y w) acc) s.y }) :=
+  ⟨fun up => Lem.updatePredict_cutoff core mode s y cv up,
+   fun hfit hok => L12.updatePredict_net core mode s y cv hfit hok⟩
+
+/-- The model is a function of (parameters, data): two forecasters with equal parameters (`core`,
+`mode`) fitted on equal data return equal results for equal calls - whatever apply-type calls each
+of them has served before. -/
+theorem equal_params_equal_data_equal_result (core : Core) (y : Series) (fh : Option FhArg)
+    (hist1 hist2 : List (Option FhArg)) (a : FhArg) :
+    (predict core .optional (predicts core .optional (fit core .optional {} y fh).1 hist1).1 (some a)).2 =
+    (predict core .optional (predicts core .optional (fit core .optional {} y fh).1 hist2).1 (some a)).2 := by
+  rw [apply_idempotent_under_interleaving core .optional _ (some a) hist1 (Or.inr rfl),
+      apply_idempotent_under_interleaving core .optional _ (some a) hist2 (Or.inr rfl)]
+
+-- =============================================================================================
+-- any estimator as a machine
+
+/-- one-step purity ⇒ every result in every history is the result of that call in isolation, and the
+observation never changes -/
+theorem machine_results_determined_by_call {σ ω μ α ρ : Type} (M : Machine σ ω μ α ρ) (h : M.WellBehaved)
+    (s : σ) (calls : List (μ × α)) :
+    (M.runCalls s calls).2 = calls.map (fun c => (M.apply s c.1 c.2).2) ∧
+    M.observe (M.runCalls s calls).1 = M.observe s :=
+  L12.runCalls_spec M h s calls
+
+theorem machine_apply_idempotent_under_interleaving {σ ω μ α ρ : Type} (M : Machine σ ω μ α ρ)
+    (h : M.WellBehaved) (s : σ) (others : List (μ × α)) (m : μ) (a : α) :
+    (M.apply (M.runCalls s others).1 m a).2 = (M.apply s m a).2 :=
+  h.reads _ _ m a (L12.runCalls_spec M h s others).2
+
+/-- the forecaster machine meets the one-step condition (this is what the static tie checks on the
+source for every other estimator: apply-type methods write no attribute a later call reads) -/
+theorem forecaster_machine_wellBehaved (core : Core) :
+    (fcMachine core).WellBehaved ∧ (fcMachineReq core).WellBehaved :=
+  ⟨L12.fcMachine_wellBehaved core, L12.fcMachineReq_wellBehaved core⟩
+
+/-- the aimed mutation "cache the result on `self` inside `transform`" violates the one-step condition,
+and the violation is visible: transform(1), transform(2) returns (1, 1) -/
+theorem caching_machine_breaks_purity :
+    ¬ (cachingMachine (fun (x : Nat) => x)).WellBehaved ∧
+    ((cachingMachine (fun (x : Nat) => x)).runCalls none [((), 1), ((), 2)]).2 = [1, 1] := by
+  refine ⟨fun h => ?_, by decide⟩
+  have := (L12.runCalls_spec _ h none [((), 1), ((), 2)]).1
+  revert this
+  decide
+
+-- =============================================================================================
+-- transformer machine
+
+/-- transform / inverse_transform / predict / predict_proba never change the estimator -/
+theorem transformer_apply_preserves_state {P D σ α ρ : Type} (core : TCore P D σ α ρ) (s : TState P σ)
+    (m : Method) (a : α) : (tstep core s (.call m a)).1 = s := by
+  unfold tstep
+  cases s.fitted with
+  | none => rfl
+  | some st => simp only; cases core.app st m a <;> rfl
+
+theorem transformer_machine_wellBehaved {P D σ α ρ : Type} (core : TCore P D σ α ρ) :
+    (tMachine core).WellBehaved where
+  keeps s m a := transformer_apply_preserves_state core s m a
+  reads s s' m a h := by
+    have : s = s' := h
+    subst this; rfl
+
+/-- … so a call returns the same result after any interleaving of other apply-type calls -/
+theorem transformer_apply_idempotent_under_interleaving {P D σ α ρ : Type} (core : TCore P D σ α ρ)
+    (s : TState P σ) (others : List (Method × α)) (m : Method) (a : α) :
+    (tstep core ((tMachine core).runCalls s others).1 (.call m a)).2 = (tstep core s (.call m a)).2 :=
+  machine_apply_idempotent_under_interleaving (tMachine core) (transformer_machine_wellBehaved core) s others m a
+
+/-- equal parameters (random_state included), equal data ⇒ equal results, whatever each copy served
+before (n_jobs is not a parameter of the function computed: `parallel_result_independent_of_completion_order`) -/
+theorem transformer_equal_params_equal_data_equal_result {P D σ α ρ : Type} (core : TCore P D σ α ρ)
+    (p : P) (d : D) (hist1 hist2 : List (Method × α)) (m : Method) (a : α) :
+    (tstep core ((tMachine core).runCalls (tstep core ⟨p, none⟩ (.fit d)).1 hist1).1 (.call m a)).2 =
+    (tstep core ((tMachine core).runCalls (tstep core ⟨p, none⟩ (.fit d)).1 hist2).1 (.call m a)).2 := by
+  rw [transformer_apply_idempotent_under_interleaving, transformer_apply_idempotent_under_interleaving]
+
+-- =============================================================================================
+-- scheduling
+
+/-- `Parallel` with results written into slot = submission index: for EVERY completion order (every
+permutation of the task numbers) the caller receives `[f t₀, f t₁, …]` -/
+theorem parallel_result_independent_of_completion_order {α β : Type} (f : α → β) (tasks : List α)
+    (order : List Nat) (hperm : order.Perm (List.range tasks.length)) :
+    parallelMap f tasks order = some (tasks.map f) := by
+  unfold parallelMap
+  rw [L12.runSchedule_perm f tasks order hperm, L12.collect_map_some]
+
+/-- hence any two schedules agree -/
+theorem parallel_two_schedules_agree {α β : Type} (f : α → β) (tasks : List α) (o1 o2 : List Nat)
+    (h1 : o1.Perm (List.range tasks.length)) (h2 : o2.Perm (List.range tasks.length)) :
+    parallelMap f tasks o1 = parallelMap f tasks o2 := by
+  rw [parallel_result_independent_of_completion_order f tasks o1 h1,
+      parallel_result_independent_of_completion_order f tasks o2 h2]
+
+/-- the aimed mutation "collect results in completion order" does depend on the schedule -/
+theorem completion_order_collection_depends_on_schedule :
+    collectInCompletionOrder (fun (x : Nat) => x) [10, 20] [1, 0] ≠
+    collectInCompletionOrder (fun (x : Nat) => x) [10, 20] [0, 1] := by decide
+
+-- =============================================================================================
+-- the caller's object
+
+/- FULL-STRENGTH STATEMENT (false for /repo as it stands):
+     ∀ estimator method container arg result,
+       callerAfter (effectOf estimator method container) arg result = arg
+   It fails for HampelFilter.transform (Series and DataFrame), Imputer(method="random").transform on
+   a DataFrame and the statsmodels adapters' fit on a Series with an Int64Index. -/
+
+/-- every site that is not in the table of known in-place sites leaves the caller's object alone -/
+theorem args_preserved_partial {V : Type} (estimator method container : String) (arg : ArgSnap V) (result : V)
+    (h : effectOf estimator method container = .copies) :
+    callerAfter (effectOf estimator method container) arg result = arg := by
+  rw [h]; rfl
+
+/-- NEGATION at a concrete witness: `HampelFilter(window_length=3, n_sigma=3, k=1).transform(z)` with
+z = (1, 90, 2, 3, 4) on labels 0..4 returns (1, NaN, 2, 3, 4) AND the caller's series is (1, NaN, 2, 3, 4)
+afterwards -/
+theorem hampel_mutates_caller_witness :
+    hampelInPlace ⟨3, 3, 1⟩ [(0, some 1), (1, some 90), (2, some 2), (3, some 3), (4, some 4)] =
+      .ok ([(0, some 1), (1, none), (2, some 2), (3, some 3), (4, some 4)],
+           [(0, some 1), (1, none), (2, some 2), (3, some 3), (4, some 4)]) ∧
+    effectOf "HampelFilter" "transform" "Series" = .returnsArgMutated ∧
+    callerAfter (effectOf "HampelFilter" "transform" "Series")
+        (⟨[some 1, some 90, some 2, some 3, some 4], [0, 1, 2, 3, 4], true⟩ : ArgSnap (List (Option Rat)))
+        [some 1, none, some 2, some 3, some 4]
+      ≠ ⟨[some 1, some 90, some 2, some 3, some 4], [0, 1, 2, 3, 4], true⟩ := by
+  refine ⟨by decide +kernel, by decide, by decide +kernel⟩
+
+/-- in the in-place sites the caller's data change exactly when the call changes a value: the
+caller's object afterwards IS the result -/
+theorem hampel_caller_after_is_result (cfg : ST.HampelCfg) (z r after : ST.Series)
+    (h : hampelInPlace cfg z = .ok (r, after)) : after = r := by
+  unfold hampelInPlace at h
+  cases hh : ST.hampel cfg z with
+  | error e => rw [hh] at h; cases h
+  | ok x => rw [hh] at h; simp only [Except.map, Except.ok.injEq, Prod.mk.injEq] at h; rw [← h.1, ← h.2]
+
+/-- the adapters' index replacement keeps values and labels (only the index object changes) -/
+theorem replaces_index_keeps_data {V : Type} (arg : ArgSnap V) (result : V) :
+    (callerAfter .replacesIndex arg result).values = arg.values ∧
+    (callerAfter .replacesIndex arg result).labels = arg.labels := ⟨rfl, rfl⟩
+
+-- =============================================================================================
+-- non-vacuity
+
+example : [2, 0, 1].Perm (List.range [7, 8, 9].length) := by decide
+example : parallelMap (fun (x : Nat) => x + 1) [7, 8, 9] [2, 0, 1] = some [8, 9, 10] := by decide
+example : parallelMap (fun (x : Nat) => x + 1) [7, 8, 9] [2, 0] = none := by decide   -- not a permutation: a slot stays empty
+example : effectOf "BoxCoxTransformer" "transform" "Series" = .copies := by decide
+example : (predict coreLast .optional ⟨true, [(0, some 1), (1, some 2)], some 1, none, 1⟩ (some ([1, 2], true))).1.fh
+    = some ⟨[1, 2], true⟩ := by
+  simp [predict, fhObjOf, checkFhArg, FH.checkFh, FH.mk, FH.checkValues, sortInts, isortBy, insertBy, setFh,
+    predictStored, Except.map, bind, Except.bind, pure, Except.pure]
+example : checkFhArg ([1, 2], true) = .ok ⟨[1, 2], true⟩ :=
+  Lem.checkFhArg_sorted [1, 2] true (by decide) (by decide)
+
 end SkVerif.C12
